@@ -14,9 +14,8 @@
   (list functions ↦ specification), Kevo.Proofs.Scan (storage iterator, bounds, filters, service),
   Kevo.Proofs.MergeEngine + ScanEngine (composition with C01's invariant along every program).
 
-  Open: `bounded_last_statement` is FALSE for the code as it is (bounded_last_witness): SeekToLast with an end bound
-  that is not a stored key ends invalid (KNOWN_FINDINGS KF-C05-bounded-seektolast). The concurrent clause of C05 is
-  represented only by hier_strictly_ascending (any source contents).
+  SeekToLast under an end bound follows the repaired code (8151b8c): bounded_last_spec holds at full strength.
+  The concurrent clause of C05 is represented only by hier_strictly_ascending (any source contents).
 -/
 import Kevo.Proofs.ScanEngine
 import Kevo.Proofs.BoundedLast
@@ -117,33 +116,23 @@ theorem bounded_seek_spec (srcs : List (List KV)) (hok : SourcesOK srcs) (lo hi 
   show ((mergeSpec srcs).filter (fun e : KV => inRange lo hi e.1 && !ltB e.1 t)).length ≤ n
   omega
 
-/-- what C05 asks of SeekToLast on a range iterator: the greatest merged key in [lo,hi) -/
-def bounded_last_statement : Prop :=
-  ∀ (srcs : List (List KV)) (lo hi : Option Bytes), SourcesOK srcs →
+/-- SeekToLast of the range iterator, all bounds (the end bound need not be a stored key): the greatest merged key
+    in [lo,hi) with its newest value, invalid iff the range holds no merged key. Keys are non-empty (as everywhere in
+    the engine; the coded walk keeps `lastKey` nil after appending an empty key).
+    History: before repair 8151b8c the code called Seek(end) and walked back only when the key found equalled `end`;
+    this statement was then false (one stored key 01, end 02: invalid) and was kept as an open `bounded_last_statement`
+    with a partial theorem and a `decide` witness. -/
+theorem bounded_last_spec (srcs : List (List KV)) (hok : SourcesOK srcs) (hne : ∀ x ∈ mergeSpec srcs, x.1 ≠ [])
+    (lo hi : Option Bytes) :
     (if (bOps lo hi (total srcs + 2)).valid ((bOps lo hi (total srcs + 2)).last (mkHier srcs))
       then some ((bOps lo hi (total srcs + 2)).k ((bOps lo hi (total srcs + 2)).last (mkHier srcs)),
                  (bOps lo hi (total srcs + 2)).val ((bOps lo hi (total srcs + 2)).last (mkHier srcs)))
-      else none) = ((mergeSpec srcs).filter (fun e => inRange lo hi e.1)).getLast?
+      else none) = ((mergeSpec srcs).filter (fun e => inRange lo hi e.1)).getLast? :=
+  bounded_last_full srcs hok hne lo hi (total srcs + 2) (mkHier srcs) (mkHier_over srcs)
+    (by intro s hs; simp [mkHier] at hs; obtain ⟨_, _, rfl⟩ := hs; rfl) (by omega)
 
-/-- it holds when there is no end bound, and when the end bound is itself a stored key (then Seek(end) lands on it and
-    the code walks forward from the first key to the last one below the bound) -/
-theorem bounded_last_partial (srcs : List (List KV)) (lo hi : Option Bytes) (hok : SourcesOK srcs)
-    (hhi : hi = none ∨ ∃ e v, hi = some e ∧ (e, v) ∈ mergeSpec srcs) :
-    (if (bOps lo hi (total srcs + 2)).valid ((bOps lo hi (total srcs + 2)).last (mkHier srcs))
-      then some ((bOps lo hi (total srcs + 2)).k ((bOps lo hi (total srcs + 2)).last (mkHier srcs)),
-                 (bOps lo hi (total srcs + 2)).val ((bOps lo hi (total srcs + 2)).last (mkHier srcs)))
-      else none) = ((mergeSpec srcs).filter (fun e => inRange lo hi e.1)).getLast? := by
-  rcases hhi with rfl | ⟨e, v, rfl, hmem⟩
-  · exact bounded_last_noend srcs hok lo (total srcs + 2) (mkHier srcs) (mkHier_over srcs)
-      (by intro s hs; simp [mkHier] at hs; obtain ⟨_, _, rfl⟩ := hs; rfl)
-  · exact bounded_last_end_present srcs hok lo e v hmem (total srcs + 2) (mkHier srcs) (mkHier_over srcs) (by omega)
-
-/-- the code as it is: one stored key 01, end bound 02 (not stored): SeekToLast ends invalid although 01 < 02 -/
-theorem bounded_last_witness : ¬ bounded_last_statement := by
-  intro h
-  have := h [[([1], some [1])]] none (some [2]) (by intro s hs; simp at hs; subst hs; simp [Kevo.Proofs.Merge.Nondec])
-  revert this
-  decide
+/-- the case that failed before the repair, on the model: one stored key 01, end bound 02 -/
+example : (bOps none (some [2]) 3).valid ((bOps none (some [2]) 3).last (mkHier [[([1], some [1])]])) = true := by decide
 
 /-! ### (e) filters, limit, and the service's option combinations -/
 
